@@ -289,6 +289,8 @@ def run_real(vhbin, wd, cases_path):
             lexdiff.append(line.strip())
         elif p[3].startswith("builderr"):
             builderr[(p[0], int(p[1]))] = p[3]
+        elif p[3] == "skipped":
+            pass
         else:
             real[(p[0], int(p[1]), int(p[2]))] = p[3]
     if lexdiff:
@@ -405,6 +407,7 @@ def run(pid, tier, args):
                             norm = re.sub(r"tok(\d+)", lambda m: "tok<%s>" % ("%s:%s" % (toks[int(m.group(1)) - 1]["t"], toks[int(m.group(1)) - 1]["v"]) if 0 < int(m.group(1)) <= len(toks) else "0"), strip_err(real[(g["id"], k, i)]))
                             # elided tokens inside a []lexer.Token run are "asked for" and legitimately vary with the spacing
                             norm = re.sub(r"tok<(WS|Comment):[^>]*>,?", "", norm).replace(",]", "]")
+                            norm = re.sub(r"pos\d+", "pos", norm)   # Pos / EndPos are positions, not captured fields
                             outs.setdefault(norm, i)
                         if not outs:
                             continue
